@@ -85,6 +85,29 @@ Proof.
     + apply forallb_forall. intros f Hf. apply memN_In. apply Hsame. apply Hm. exact Hf.
 Qed.
 
+(* the same under the documented, selection-dependent soft-requirement exemption *)
+Definition solvable_with_soft (P : problem) (must : list N) : bool :=
+  existsb (fun S => validb U P S (exempt U P S) && forallb (fun f => memN f S) must) (sels names).
+
+Theorem solvable_with_soft_spec P must :
+  solvable_with_soft P must = true <->
+  exists S, valid U P S (exempt U P S) /\ forall f, In f must -> In f S.
+Proof.
+  unfold solvable_with_soft. rewrite existsb_exists. split.
+  - intros [S [_ H]]. apply andb_true_iff in H. destruct H as [Hv Hm].
+    exists S. split; [apply validb_spec; exact Hv|].
+    intros f Hf. rewrite forallb_forall in Hm. apply memN_In. apply Hm. exact Hf.
+  - intros [S [Hv Hm]].
+    assert (Hdom : forall s, In s S -> In s dom) by (intros s; eapply valid_in_dom; eauto).
+    destruct (sels_complete names S) as [S' [HS' Hx]]; [apply Hv | exact Hdom |].
+    assert (Hsame : same_set S S').
+    { intro x. rewrite Hx. split; [|tauto]. intro HxS. split; [exact HxS|].
+      unfold names. apply nodup_In. apply in_map. apply Hdom. exact HxS. }
+    exists S'. split; [exact HS'|]. apply andb_true_iff. split.
+    + apply validb_spec. rewrite <- (exempt_same_set U P S S' Hsame). eapply valid_same_set; eauto.
+    + apply forallb_forall. intros f Hf. apply memN_In. apply Hsame. apply Hm. exact Hf.
+Qed.
+
 Theorem solvable_with_spec P must :
   solvable_with P must = true <->
   exists S, valid U P S [] /\ forall f, In f must -> In f S.
@@ -115,6 +138,7 @@ Qed.
 Definition u_solvable_with (u : universe) := solvable_with (table_provider u) (u_dom u).
 Definition u_solvable_with_ex (u : universe) := solvable_with_ex (table_provider u) (u_dom u).
 Definition u_solvableb (u : universe) := solvableb (table_provider u) (u_dom u).
+Definition u_solvable_with_soft (u : universe) := solvable_with_soft (table_provider u) (u_dom u).
 
 Theorem u_solvableb_correct u P :
   u_solvableb u P = true <-> solvable (table_provider u) P.
@@ -129,3 +153,9 @@ Theorem u_solvable_with_ex_spec u P must ex :
   u_solvable_with_ex u P must ex = true <->
   exists S, valid (table_provider u) P S ex /\ forall f, In f must -> In f S.
 Proof. apply solvable_with_ex_spec. apply u_dom_complete. Qed.
+
+Theorem u_solvable_with_soft_spec u P must :
+  u_solvable_with_soft u P must = true <->
+  exists S, valid (table_provider u) P S (exempt (table_provider u) P S) /\ forall f, In f must -> In f S.
+Proof. apply solvable_with_soft_spec. apply u_dom_complete. Qed.
+
